@@ -119,11 +119,12 @@ CONTRACTS.append(ident)
 # =================================================================================================
 # ExpressionLowerer.lower_function_call_inline: the callee runs with its parameters bound to the lowered arguments
 # and the CALLER's bindings come back untouched afterwards — parameter values (shadowed ones restored, new ones
-# removed), variables (callee locals gone, shadowed ones restored), entities (the caller's entity of a name the
+# removed; an int parameter bound to the INTEGER a constant argument denotes), variables (callee locals gone, shadowed ones restored), entities (the caller's entity of a name the
 # callee reused is kept; entities the callee created under fresh names are handed out) and the inlining stack.
 # Concrete scope shape: 2 parameters (one shadowing an outer parameter), a body of one statement + return.
 # =================================================================================================
 from pyvc.values import Opaque as _Opq  # noqa: E402
+from pyvc.ghost import ghost  # noqa: E402
 
 TR = {}
 _OUTER_P, _OTHER, _V0, _ARG = _Opq("outer-p"), _Opq("other-param"), _Opq("caller-v"), {}
@@ -168,7 +169,11 @@ def _inline_post(a, res):
     inb = TR.get("params_in_body")
     if inb is None:
         return False
-    cs = [inb.get("p") is lowered.get(id(args[0])), inb.get("q") is lowered.get(id(args[1])), inb.get("other") is _OTHER,
+    qconst = args[1]._fields.get("@cval")
+    # an int parameter is bound to the INTEGER its constant argument denotes (like an int variable: it must not become a constant signal with a type of its own),
+    # else to the lowered argument; a Signal parameter always to the lowered argument
+    q_ok = (inb.get("q") is qconst and id(args[1]) not in lowered) if qconst is not None else (inb.get("q") is lowered.get(id(args[1])))
+    cs = [inb.get("p") is lowered.get(id(args[0])), q_ok, "@cval" not in args[0]._fields, inb.get("other") is _OTHER,
           TR.get("stack_in_body") == ["f"],
           # afterwards: the caller's world
           me.param_values == {"p": _OUTER_P, "other": _OTHER},
@@ -211,14 +216,19 @@ inline_call = Contract(
     qualname=EL + "lower_function_call_inline",
     params={"self": ty.TObj("ExpressionLowerer", only=("ExpressionLowerer",)),
             "expr": ty.TObj("CallExpr", only=("CallExpr",), ftypes=(("name", ty.TConcrete("f")), ("args", ty.TTuple((ty.TObj("Expr", only=("BinaryOp",)), ty.TObj("Expr", only=("BinaryOp",)))))))},
-    requires=[("(reset trace)", _setup)],
-    ensures=[("parameters bound in the body; the caller's parameters, variables, entities and inlining stack are restored exactly", _inline_post)],
+    requires=[("(reset trace)", _setup), ("(whether the int argument is a compile-time constant, and which)", lambda a: ghost(a.expr.args[1], "cval", ty.TOpt(ty.Int)) is None or True)],
+    ensures=[("parameters bound in the body (an int parameter to the integer its constant argument denotes); the caller's parameters, variables, entities and inlining stack are "
+              "restored exactly", _inline_post)],
     uses={"ExpressionLowerer.lower_expr": lower_arg, "StatementLowerer.lower_statement": lower_body, "SymbolTable.lookup": func_lookup,
-          "ExpressionLowerer._error": "skip", "IRBuilder.const": "skip", "IRBuilder.allocate_implicit_type": "skip"},
+          "ExpressionLowerer._error": "skip", "IRBuilder.const": "skip", "IRBuilder.allocate_implicit_type": "skip",
+          "ConstantFolder.extract_constant_int": Contract(qualname="dsl_compiler/src/lowering/constant_folder.py::ConstantFolder.extract_constant_int",
+                                                          params={"cls": _OPQ, "expr": _OPQ, "diagnostics": _OPQ, "symbol_resolver": _OPQ}, defaults={"diagnostics": None, "symbol_resolver": None},
+                                                          effect=lambda ex, a: ghost(a.expr, "cval", ty.TOpt(ty.Int)), verify=False,
+                                                          note="verified separately (contracts.c11): the S3 constant value of the expression, or None")},
     dynamic_types={"self": {"parent": ty.TObj("ASTLowerer", only=("ASTLowerer",)), "semantic": ty.TObj("SemanticAnalyzer", only=("SemanticAnalyzer",)),
                             "ir_builder": ty.TObj("IRBuilder", only=("IRBuilder",))},
                    "self.parent": {"param_values": ty.TConcrete({"p": _OUTER_P, "other": _OTHER}), "signal_refs": ty.TConcrete({"v": _V0}),
-                                   "entity_refs": ty.TConcrete({"lamp": "E0"}), "_inlining_stack": ty.TConcrete([]),
+                                   "entity_refs": ty.TConcrete({"lamp": "E0"}), "_inlining_stack": ty.TConcrete([]), "diagnostics": ty.TOpaque("diag"),
                                    "stmt_lowerer": ty.TObj("StatementLowerer", only=("StatementLowerer",)), "returned_entity_id": ty.TConcrete(None)},
                    "self.semantic": {"current_scope": ty.TObj("SymbolTable", only=("SymbolTable",))}},
     properties=("C15", "C09", "C16"), min_obligations=1, no_replay=True, note="concrete scope shape (2 parameters, one body statement, return)",
